@@ -1,5 +1,5 @@
 (* C14 -- invalid sources are rejected.  Over the regenerated grammar and the PEG interpreter. *)
-From SV Require Import Peg PegFacts Bound Barrier GenGrammar.
+From SV Require Import Peg PegFacts Bound BoundPk Barrier Trace GenGrammar.
 From Coq Require Import Arith.
 Local Open Scope nat_scope.
 
@@ -11,6 +11,13 @@ Theorem C14_strict_ends_with_eof :
   ends_with_eof (body_of14 start_source_text) = true /\ ends_with_eof (body_of14 start_library_text) = true.
 Proof. vm_compute. split; reflexivity. Qed.
 
+(* the look-ahead primitives (none_of: behind every keyword stands peek(none_of(identifier characters)),
+   which takes ANY other byte) occur only directly under peek / not, where what they consume is given back *)
+Theorem C14_lookahead_only_under_peek : forallb (fun pr => pk peek_prims (p_body pr)) grammar = true.
+Proof. vm_compute. reflexivity. Qed.
+
+Definition GP14 := pk_grammar peek_prims grammar C14_lookahead_only_under_peek.
+
 Section Oracles.
 Variable A : Type.
 Variable prim : N -> A -> nat -> option nat.
@@ -19,29 +26,69 @@ Variable cond : N -> A -> bool.
 Variable dirflag : A -> bool.
 Variable inp : list N.
 Variable bar : nat.     (* offset of an inserted byte that no token can contain *)
-Hypothesis prim_stops : forall i a p n, p <= bar -> prim i a p = Some n -> p + n <= bar.
+(* no token primitive consumes the byte; the look-ahead primitives are exempt *)
+Hypothesis prim_stops : forall i a p n, is_pk peek_prims i = false -> p <= bar -> prim i a p = Some n -> p + n <= bar.
 
-(* the byte is a barrier: whatever is parsed from a position at or before it -- any expression of
-   the grammar, with any memo content that respects the barrier -- ends at or before it *)
+(* the byte is a barrier: whatever is parsed from a position at or before it -- any expression in which
+   look-ahead primitives stand under peek / not only, with any memo content that respects the barrier --
+   ends at or before it *)
 Theorem C14_barrier : forall fuel e p rf st,
-  memo_bd A bar st -> p <= bar ->
+  pk peek_prims e = true -> memo_bd A bar st -> p <= bar ->
   match fst (run A prim act cond dirflag inp grammar fuel e p rf st) with
   | Ok _ q => p <= q <= bar
   | _ => True
   end.
-Proof. intros. eapply (run_bd A prim act cond dirflag inp grammar bar prim_stops); assumption. Qed.
+Proof. intros. eapply (run_bd_pk A prim act cond dirflag inp grammar bar peek_prims prim_stops GP14); assumption. Qed.
 
 (* hence strict parsing of a text with such a byte before its end never succeeds, for either grammar,
    any memo capacity and any fuel *)
 Theorem C14_stop_byte_rejected_sv : bar < length inp -> forall fuel cap aux f q st',
   run A prim act cond dirflag inp grammar fuel (FCall start_source_text) 0 [] (mkPst A [] [] cap aux) <> (Ok f q, st').
 Proof.
-  intros Hb. eapply (strict_rejects A prim act cond dirflag inp grammar bar prim_stops); [vm_compute; reflexivity|vm_compute; reflexivity|exact Hb].
+  intros Hb. eapply (strict_rejects A prim act cond dirflag inp grammar bar peek_prims prim_stops GP14); [vm_compute; reflexivity|vm_compute; reflexivity|exact Hb].
 Qed.
 
 Theorem C14_stop_byte_rejected_lib : bar < length inp -> forall fuel cap aux f q st',
   run A prim act cond dirflag inp grammar fuel (FCall start_library_text) 0 [] (mkPst A [] [] cap aux) <> (Ok f q, st').
 Proof.
-  intros Hb. eapply (strict_rejects A prim act cond dirflag inp grammar bar prim_stops); [vm_compute; reflexivity|vm_compute; reflexivity|exact Hb].
+  intros Hb. eapply (strict_rejects A prim act cond dirflag inp grammar bar peek_prims prim_stops GP14); [vm_compute; reflexivity|vm_compute; reflexivity|exact Hb].
+Qed.
+
+(* where the parser looks: runT is the interpreter with a high-water mark of the positions at which any
+   expression was applied (Nom/Trace.v); erasing the mark gives the parse back ... *)
+Theorem C14_trace_is_the_parse : forall fuel e p rf st hw,
+  fst (runT A prim act cond dirflag inp grammar fuel e p rf st hw) = run A prim act cond dirflag inp grammar fuel e p rf st.
+Proof. intros. apply (runT_erase A prim act cond dirflag inp grammar). Qed.
+
+(* ... and no expression is ever applied beyond the byte: every position an error report can carry (the
+   input of some failing parser; GreedyError keeps the greatest) is at or before the byte in the
+   preprocessed text, for a strict or incomplete parse from the start with any memo capacity *)
+Theorem C14_never_looks_past_the_byte : forall fuel e p rf st hw r st' h,
+  pk peek_prims e = true -> memo_bd A bar st -> p <= bar -> hw <= bar ->
+  runT A prim act cond dirflag inp grammar fuel e p rf st hw = (r, st', h) -> hw <= h <= bar.
+Proof. intros fuel e p rf st hw r st' h He Hm Hp Hh E. eapply (runT_bd A prim act cond dirflag inp grammar bar peek_prims prim_stops GP14); eauto. Qed.
+
+Theorem C14_error_position_at_or_before_the_byte : forall fuel n cap aux r st' h,
+  runT A prim act cond dirflag inp grammar fuel (FCall n) 0 [] (mkPst A [] [] cap aux) 0 = (r, st', h) -> h <= bar.
+Proof.
+  intros fuel n cap aux r st' h E.
+  assert (M0 : memo_bd A bar (mkPst A [] [] cap aux)) by (intros ? ? ? ? ? []).
+  pose proof (runT_bd A prim act cond dirflag inp grammar bar peek_prims prim_stops GP14 _ _ _ _ _ _ _ _ _ E eq_refl M0 (Nat.le_0_l _) (Nat.le_0_l _)). tauto.
 Qed.
 End Oracles.
+
+(* the hypothesis can be met, and the mark does move: a toy text "ab?" whose third byte no token primitive
+   takes, while the look-ahead primitive 1 takes it -- under peek *)
+Definition toy_prim (i : N) (_ : unit) (p : nat) : option nat :=
+  if N.eqb i 1 then Some 1 else if Nat.ltb p 2 then Some 1 else None.
+
+Example C14_toy_prim_stops : forall i a p n, is_pk [1%N] i = false -> p <= 2 -> toy_prim i a p = Some n -> p + n <= 2.
+Proof.
+  intros i a p n Hi Hp. unfold toy_prim. unfold is_pk in Hi. cbn [existsb] in Hi. rewrite Bool.orb_false_r in Hi. rewrite Hi.
+  destruct (Nat.ltb p 2) eqn:E; [|discriminate]. intros [= <-]. apply Nat.ltb_lt in E. rewrite Nat.add_1_r. exact E.
+Qed.
+
+Example C14_mark_reaches_the_byte :
+  runT unit toy_prim (fun _ a => a) (fun _ _ => false) (fun _ => false) [97; 98; 1]%N [] 10
+       (FSeq [FMany0 (FPrim 0%N); FPeek (FPrim 1%N)]) 0 [] (mkPst unit [] [] None tt) 0 = (Ok [] 2, mkPst unit [] [] None tt, 2).
+Proof. vm_compute. reflexivity. Qed.
